@@ -9,7 +9,7 @@ from __future__ import annotations
 
 import collections
 
-from ..common import Report, main_wrapper, scratch, seed, run_tlc, MachineryError, tlc_failure_excerpt
+from ..common import Report, main_wrapper, scratch, eff_seed, run_tlc, MachineryError, tlc_failure_excerpt
 from ..replay_cursor import replay
 from .. import fwdcheck
 from .args import parse
@@ -62,7 +62,7 @@ def main():
     rep.cov["replayed_by_edit_kind"] = dict(kinds)
     # ---- (3)
     sel = (lambda m, p: a.only in p.name()) if a.only else None
-    edges = fwdcheck.run(MODULES if quick else MODULES_THOROUGH, seed(), nshards=6, select=sel,
+    edges = fwdcheck.run(MODULES if quick else MODULES_THOROUGH, eff_seed(), nshards=6, select=sel,
                          depth2=1 if quick else 4, implicit=0.25 if quick else 1.0)
     tot = collections.Counter()
     perop = collections.defaultdict(collections.Counter)
